@@ -363,6 +363,9 @@ def run_conv(s, tier="quick", seed=0):
     # ---- SO2 angle ranges
     def go_angles():
         for name, lo, hi in (("so2_angle", -PI_HI, PI_HI), ("so2_angle_cw", -2 * PI_LO, Fraction(0)), ("so2_angle_ccw", Fraction(0), 2 * PI_HI)):
+            if s == "f":
+                # single precision: the end points of the documented range are representable only up to rounding (float(2 pi) > 2 pi)
+                lo, hi = lo * (1 + Fraction(1, 2 ** 22)), hi * (1 + Fraction(1, 2 ** 22))
             vs, call = paths(name, [("a", 2), ("o", 1)], real=False)
             for k, pv in enumerate(vs):
                 oid = "%s::%s/range/p%d" % (tag, name[4:], k)
